@@ -84,15 +84,15 @@ package tree
 //@   props C01 C03
 //@   noalloc
 //@   requires x != nil && x.owner != nil && x.owner.nodes[x] && structOK(x.owner, nil, nil)
-//@   loop 0: invariant curr != nil && x.owner.nodes[curr] && curr.height <= x.height
-//@   ensures result != nil && x.owner.nodes[result] && result.height == 0
+//@   loop 0: invariant curr != nil && x.owner.nodes[curr] && curr.height <= x.height && (x != x.owner.root ==> curr != x.owner.root)
+//@   ensures result != nil && x.owner.nodes[result] && result.height == 0 && (x != x.owner.root ==> result != x.owner.root && result.n >= 7)
 
 //@ func rightmostLeaf
 //@   props C01 C03
 //@   noalloc
 //@   requires x != nil && x.owner != nil && x.owner.nodes[x] && structOK(x.owner, nil, nil)
 //@   loop 0: invariant curr != nil && x.owner.nodes[curr] && curr.height <= x.height && (x != x.owner.root ==> curr != x.owner.root)
-//@   ensures result != nil && x.owner.nodes[result] && result.height == 0 && (x != x.owner.root ==> result != x.owner.root)
+//@   ensures result != nil && x.owner.nodes[result] && result.height == 0 && (x != x.owner.root ==> result != x.owner.root && result.n >= 7)
 
 //@ func newBtree
 //@   props C03
@@ -326,3 +326,117 @@ package tree
 //@   loop 0: invariant curr != nil && t.nodes[curr] && structOK(t, nil, nil)
 //@   ensures structOK(t, nil, nil)
 //@   ensures C02: deadOK(t) && popGrows(t) && ((t.gen == old(t.gen) && sameShape(t)) || t.gen == old(t.gen) + 1)
+
+// ---- cursors (C02): safety and lost-detection ----
+// The comparator is assumed reflexive (part of "strict weak order given as a three-way compare").
+//@ pred cmpRefl(t) = forall a K {t.compare(a, a)} :: t.compare(a, a) == 0
+//@ pred treeOK(t) = t != nil && structOK(t, nil, nil) && deadOK(t) && cmpRefl(t)
+// a parked cursor: in a live or a dead node; if the tree's generation is the one it saw, its slot still holds its key
+//@ pred curOK(c) = c != nil && treeOK(c.t)
+//@   && (c.curr != nil ==> (c.t.nodes[c.curr] || c.t.dead[c.curr]) && 0 <= c.i
+//@        && (c.gen == c.t.gen ==> c.t.nodes[c.curr] && c.i < c.curr.n && c.t.compare(c.k, c.curr.keys[c.i]) == 0))
+// the slot the cursor points at holds (a key equivalent to) its key right now
+//@ pred posValid(c) = c.curr != nil ==> c.t.nodes[c.curr] && 0 <= c.i && c.i < c.curr.n && c.t.compare(c.k, c.curr.keys[c.i]) == 0
+
+//@ func cursor.lost
+//@   props C02
+//@   noalloc
+//@   requires curOK(c)
+//@   ensures result <==> (c.gen != c.t.gen && c.curr != nil && (c.i >= c.curr.n || c.t.compare(c.k, c.curr.keys[c.i]) != 0))
+//@   ensures !result ==> posValid(c)
+
+//@ func cursor.find
+//@   props C02
+//@   noalloc
+//@   requires c != nil && treeOK(c.t)
+//@   loop 0: invariant curr != nil && c.t.nodes[curr]
+//@   ensures result0 == nil <==> c.t.root.n == 0
+//@   ensures result0 != nil ==> c.t.nodes[result0] && 0 <= result1 && result1 < result0.n
+//@   ensures result2 ==> result0 != nil && c.t.compare(k, result0.keys[result1]) == 0
+
+//@ func cursor.seek
+//@   props C02
+//@   noalloc
+//@   requires c != nil && treeOK(c.t)
+//@   modifies c.curr, c.i, c.k, c.gen
+//@   ensures result <==> c.curr != nil
+//@   ensures result ==> c.gen == c.t.gen && c.k == c.curr.keys[c.i]
+//@   ensures curOK(c) && posValid(c)
+
+//@ func cursor.SeekFirst
+//@   props C02
+//@   noalloc
+//@   requires c != nil && treeOK(c.t)
+//@   modifies c.curr, c.i, c.k, c.gen
+//@   ensures curOK(c) && posValid(c)
+
+//@ func cursor.SeekLast
+//@   props C02
+//@   noalloc
+//@   requires c != nil && treeOK(c.t)
+//@   modifies c.curr, c.i, c.k, c.gen
+//@   ensures curOK(c) && posValid(c)
+
+//@ func cursor.Next
+//@   props C02
+//@   noalloc
+//@   requires curOK(c)
+//@   modifies c.curr, c.i, c.k, c.gen
+//@   loop 0: invariant c.curr != nil && c.t.nodes[c.curr]
+//@   ensures curOK(c) && posValid(c)
+//@   ensures old(c.curr) == nil ==> c.curr == nil
+
+//@ func cursor.Prev
+//@   props C02
+//@   noalloc
+//@   requires curOK(c)
+//@   modifies c.curr, c.i, c.k, c.gen
+//@   loop 0: invariant c.curr != nil && c.t.nodes[c.curr]
+//@   ensures curOK(c) && posValid(c)
+//@   ensures old(c.curr) == nil ==> c.curr == nil
+
+//@ func cursor.SeekLastLess
+//@   props C02
+//@   noalloc
+//@   requires c != nil && treeOK(c.t)
+//@   modifies c.curr, c.i, c.k, c.gen
+//@   ensures curOK(c) && posValid(c)
+
+//@ func cursor.SeekLastLessOrEqual
+//@   props C02
+//@   noalloc
+//@   requires c != nil && treeOK(c.t)
+//@   modifies c.curr, c.i, c.k, c.gen
+//@   ensures curOK(c) && posValid(c)
+
+//@ func cursor.SeekFirstGreaterOrEqual
+//@   props C02
+//@   noalloc
+//@   requires c != nil && treeOK(c.t)
+//@   modifies c.curr, c.i, c.k, c.gen
+//@   ensures curOK(c) && posValid(c)
+
+//@ func cursor.SeekFirstGreater
+//@   props C02
+//@   noalloc
+//@   requires c != nil && treeOK(c.t)
+//@   modifies c.curr, c.i, c.k, c.gen
+//@   ensures curOK(c) && posValid(c)
+
+//@ func cursor.refind
+//@   props C02
+//@   noalloc
+//@   requires curOK(c)
+//@   modifies c.curr, c.i, c.gen
+//@   ensures curOK(c)
+//@   ensures result ==> posValid(c)
+//@   ensures !result ==> c.curr == old(c.curr) && c.i == old(c.i) && c.gen == old(c.gen)
+//@   ensures old(c.curr) == nil ==> c.curr == nil || result
+
+// cursor.Ok and cursor.Value are used by the package's tests only (Map/Set reach cursors through Range iterators);
+// they are not under contract.
+
+//@ func cursor.Key
+//@   props C02
+//@   ispure
+//@   ensures result == c.k
